@@ -102,8 +102,8 @@ theorem C09_route_bytes (w : World) (sid : Nat) (s : Socket) (t : Bytes) (m : Ms
 the key under which the stream that produced it is registered — nothing else is modified. -/
 theorem C09_label (k : Ident) (m : Msg) : routerIn k m = k :: m ∧ (routerIn k m).tail = m := ⟨rfl, rfl⟩
 
-/-- non-vacuity: a message of fewer than two frames is not routable (the code asserts) -/
-example (w : World) : (routerSendStart w 1 [[1]]).2.2 = .ready .panic := rfl
+/-- non-vacuity: a message of fewer than two frames is not routable (an error since fix D19; the code asserted before) -/
+example (w : World) : (routerSendStart w 1 [[1]]).2.2 = .ready (.err .other) := rfl
 
 /-- **`RouterSocket::send` against the wires**: a message of two or more frames goes — minus its first frame — to
 EXACTLY the connected peer whose identity equals that frame; if no such peer is connected (or the frame cannot be an
